@@ -45,7 +45,7 @@ def build(tier, seed):
         for q in tg:
             qs.append(mc.mq("get_%s_%s" % (tag, q.hex() or "empty"), src, mode=0, kind=1, cq=q, ops="nnn"))
             qs.append(mc.mq("prefix_%s_%s" % (tag, q.hex() or "empty"), src, mode=0, kind=2, cq=q, ops="n" * (n + 2)))
-        for q0, q1 in [(tg[0], tg[-1]), (keys[0], keys[-1]), (keys[-1], keys[0])] + ([(keys[1], keys[1])] if n > 1 else []) + ([] if quick else [(a, b) for a in tg[::3] for b in tg[1::3]]):
+        for q0, q1 in [(tg[0], tg[-1]), (keys[0], keys[-1]), (keys[-1], keys[0]), (keys[n // 2], keys[-1]), (keys[n // 2] + b"\x00", b"\xff")] + ([(keys[1], keys[1])] if n > 1 else []) + ([] if quick else [(a, b) for a in tg[::3] for b in tg[1::3]]):
             qs.append(mc.mq("range_%s_%s_%s" % (tag, q0.hex() or "e", q1.hex() or "e"), src, mode=0, kind=3, cq=q0, cq2=q1, ops="n" * (n + 2)))
         # seeks on bounded merger iterators
         qs.append(mc.mq("rangeseek_%s" % tag, src, mode=0, kind=3, cq=keys[0], cq2=keys[-1], ops="nSnn", ctgt=[keys[min(1, n - 1)]]))
